@@ -73,7 +73,8 @@ class SInst:
             if n is None:
                 raise ValueError(f"operand outside the specified shapes: {o}")
             norm.append(n)
-        return (format(self.addr, "x"), self.mnem, tuple(norm) if norm else ("",))
+        mnem = self.mnem[1:-1] if self.mnem.startswith("(") and self.mnem.endswith(")") else self.mnem      # objdump's (bad) reaches the stream as bad
+        return (format(self.addr, "x"), mnem, tuple(norm) if norm else ("",))
 
 
 def rand_mem(rng: random.Random) -> str:
